@@ -1,6 +1,6 @@
 (* C18/Extract.v — extraction of the executable model (ExtrOcamlBasic only). *)
-From IoraVerif Require Import C18.Model.
+From IoraVerif Require Import C18.Model C18.Handshake.
 Require Import ExtrOcamlBasic.
 Extraction Language OCaml.
 Extraction "../build/ocaml/c18_model.ml"
-  parse serialize utf8_valid close_payload make_close wrun conn_init feed_all.
+  parse serialize utf8_valid close_payload make_close wrun conn_init feed_all crun cbuffered.
